@@ -222,17 +222,14 @@ func (w *c41Worker) run(bi int, beh []map[string]any, res *vh.Result) {
 		return
 	}
 	base := w.issued
-	maxS := len(vh.Map(beh[0]["st"]))
+	maxS := size(beh[0]["st"])
 	realOf := func(id int) uint64 { return base + uint64(id) }
 
 	// quiesce: channel state of every survey as the model says
 	quiesce := func(st map[string]any) bool {
-		mst := vh.Map(st["st"])
-		mbuf := vh.Map(st["buf"])
 		for i := 1; i <= maxS; i++ {
-			key := fmt.Sprint(i)
-			state := vh.Str(mst[key])
-			want := len(vh.List(mbuf[key]))
+			state := vh.Str(at(st["st"], i))
+			want := len(vh.List(at(st["buf"], i)))
 			deadline := time.Now().Add(c41Wait)
 			for {
 				l, c, ok := centrifuge.VerifClusterSurveyChan(node, realOf(i))
@@ -255,7 +252,7 @@ func (w *c41Worker) run(bi int, beh []map[string]any, res *vh.Result) {
 				if time.Now().After(deadline) {
 					sv := svs[i]
 					if state == "collecting" && sv != nil && isClosed(sv.exited) {
-						violate("early-return", fmt.Sprintf("survey %d finished collecting although only %s answered and the deadline has not passed", i, answered(vh.Map(vh.Map(st["results"])[key]))))
+						violate("early-return", fmt.Sprintf("survey %d finished collecting although only %s answered and the deadline has not passed", i, answered(vh.Map(at(st["results"], i)))))
 					} else {
 						drift(fmt.Sprintf("survey %d in model state %s: registered=%v channel len=%d, model buffer %d", i, state, ok, l, want))
 					}
@@ -419,10 +416,9 @@ func (w *c41Worker) run(bi int, beh []map[string]any, res *vh.Result) {
 			return
 		}
 		// a survey the model still has collecting must not have finished
-		mst := vh.Map(st["st"])
 		for i, s := range svs {
-			if vh.Str(mst[fmt.Sprint(i)]) == "collecting" && isClosed(s.exited) {
-				violate("early-return", fmt.Sprintf("survey %d finished collecting although only %s answered and the deadline has not passed", i, answered(vh.Map(vh.Map(st["results"])[fmt.Sprint(i)]))))
+			if vh.Str(at(st["st"], i)) == "collecting" && isClosed(s.exited) {
+				violate("early-return", fmt.Sprintf("survey %d finished collecting although only %s answered and the deadline has not passed", i, answered(vh.Map(at(st["results"], i)))))
 				return
 			}
 		}
@@ -430,6 +426,25 @@ func (w *c41Worker) run(bi int, beh []map[string]any, res *vh.Result) {
 	if bi < 2 {
 		res.Sample(map[string]any{"schedule": schedule(steps)})
 	}
+}
+
+// at reads element i (1-based) of a TLA+ function with domain 1..n, which TLC prints as a sequence (or as a
+// function with string keys).
+func at(v any, i int) any {
+	if l, ok := v.([]any); ok {
+		if i-1 < len(l) {
+			return l[i-1]
+		}
+		return nil
+	}
+	return vh.Map(v)[fmt.Sprint(i)]
+}
+
+func size(v any) int {
+	if l, ok := v.([]any); ok {
+		return len(l)
+	}
+	return len(vh.Map(v))
 }
 
 func containsID(ids []uint64, id uint64) bool {
